@@ -4,7 +4,8 @@ import pipeline as P
 from peg import dump_groups
 
 DEFAULT_OPT = dict(memo=False, debug=False, stats=True, maxexpr=0, allowinv=False, recover=True, fname="f",
-                   errblks=[], panicblk=0, entry="", entryrule=1, initx=-1, initg=0, via="", rev=False, initcl=-1, sharestats=False)
+                   errblks=[], panicblk=0, entry="", entryrule=1, initx=-1, initg=0, via="", rev=False, initcl=-1, sharestats=False,
+                   decoy=False)      # decoy: every option is given twice, first with another value (the later one decides)
 
 
 def opt(**kw):
@@ -146,11 +147,21 @@ class Run:
                     g.lrflags = fr
 
         self.plans = {}
+        # option lists with overridden entries ("the options are applied from left to right"): for one parse in six the runner
+        # gives every option twice, first with another value; the reference outcome is that of the later values alone
+        twin = {}
+        if getattr(self, "decoys", False):
+            for oi in range(len(options)):
+                if not options[oi]["debug"] and not options[oi].get("sharestats"):
+                    options.append(dict(options[oi], decoy=True))
+                    twin[oi] = len(options) - 1
 
         def run(v):
             plan = []
             for gx, g in enumerate(v.groups):
                 for (ii, oi) in plan_for(g):
+                    if oi in twin and (g.gi * 31 + ii * 7 + oi) % 6 == 0:
+                        oi = twin[oi]
                     if v.optimized and (options[oi]["memo"] or options[oi]["debug"]):
                         continue
                     if not v.state_on and options[oi].get("initx", -1) >= 0:
